@@ -43,7 +43,8 @@ pub fn recompute_one(o: &BookObs, tick: u32, prop: &str, op_index: usize, a: usi
     let bid_vol: u64 = bids.iter().map(|x| x.vol as u64).sum();
     let ask_vol: u64 = asks.iter().map(|x| x.vol as u64).sum();
     let at = |side: &Vec<&&OOrder>, p: i64| -> Lv {
-        if p <= 0 || p >= PMAX as i64 {
+        // (outside the price domain nothing rests; the ends themselves can hold an order: a buy at 0, a sell at 2^32-1)
+        if p < 0 || p > PMAX as i64 {
             return (0, 0);
         }
         let mut r = (0u32, 0u32);
